@@ -8,6 +8,10 @@ Binding: each of the 512 kind assignments is instantiated with every supported p
 discovered at run time through the validators), three access orders each, and the computed values must fall into the
 classes the specification names; inherited-ness comes from the specification's copy of the CSS property index, the
 initial values of ~95 well-known properties are pinned to their CSS text.
+Mode "dependent": computed values that depend on other properties of the element (CSS 2.1 9.7 / CSS Display 3 2.7
+blockification and float, widths of borders / outline / column rule under style none or hidden, bleed under marks); TLC
+checks BlockifyLaws. After-boxes: `inherit` through a table / inline-table / list-item / flex parent is compared on the boxes
+produced by layout (box building copies and edits styles).
 """
 import json
 import os
